@@ -79,4 +79,6 @@ def jobs(pid, tier):
         return [seq('C12')]
     if pid == 'C16':
         return [seq('C16')]
+    if pid == 'C06':
+        return [seq('C06')]
     return []
